@@ -66,13 +66,16 @@ def body_marks(info, opener_idx):
     return out
 
 
-def item_line(info, item):
-    """the program line an item belongs to (by run-log name; names are unique enough in this corpus)"""
-    for li in info:
-        nm = li["name"] + (": " + li["arg"] if li["arg"] else "")
-        if nm == item["name"]:
-            return li
-    return None
+def item_line(info, item, run=None):
+    """the program line an item belongs to: through the runtime record that carries the item's instance id; by run-log name
+    only when the name is unique in the program (two 'Wait: 2s' lines are different lines)"""
+    if run is not None:
+        by_id = {li["id"]: li for li in info}
+        for r in run.engine.tracking.runtimeinfo.records:
+            if any(getattr(st, "instance_id", None) == item["id"] for st in r.states) and r.node_id in by_id:
+                return by_id[r.node_id]
+    same = [li for li in info if li["name"] + (": " + li["arg"] if li["arg"] else "") == item["name"]]
+    return same[0] if len(same) == 1 else None
 
 
 def explore_program(forest):
@@ -112,7 +115,7 @@ def explore_program(forest):
                     stats["offered_rejected"] += 1
                 else:
                     stats["offered_accepted"] += 1
-                    li = item_line(info, item)
+                    li = item_line(info, item, run)
                     out += [(s, w, ctx_) for s, w in effect_problems(kind, rec.get("item") or item, li, info, run, base, t, cls)]
                 for ob in run.obs:
                     if "tick_exception" in ob:
